@@ -357,6 +357,301 @@ def job_row(i, tier, seed):
     return ck.export()
 
 
+# ------------------------------------------------------------------------------------------------ product wiring (event level)
+_REF_FORMS = None
+SIGNED = {'SX': 1, 'UX': 0, 'SY': 1, 'UY': 0}
+BASES = {'BZr': 0, 'BAc': 1, 'BSv': 2, 'BSr': 3}
+PW_SUM = ('app', 'mov_sv_app', 'mma', 'mma_mx_xy', 'mma_xy_mx', 'mma_my_my', 'mma_mov', 'sqr_sqr_add3', 'sqr_mpysu_add3a')
+PW_MUL = ('mul', 'mul_y0', 'msu', 'msusu', 'mac1')
+FLAGS = ('fz', 'fm', 'fe', 'fn', 'fc0', 'fv', 'fvl', 'flm')
+
+
+def _truth(x, want):
+    if is_c(x):
+        return z3.BoolVal(bool(x) == bool(want))
+    if z3.is_bool(x):
+        return x == z3.BoolVal(bool(want))
+    return (x != 0) == z3.BoolVal(bool(want))
+
+
+def job_pw(i, tier, seed):
+    """the dual-multiplier / product-sum forms and the multiply forms with memory or register operands, at the level of
+    events: which product registers are read and when, which ProductSum configuration the form's constants select, which
+    accumulator receives it, and which factors / sign selections each multiplier is launched with afterwards. The
+    arithmetic of ProductSum / ProductToBus40 / DoMultiplication themselves is decided by the kernels."""
+    E = env()
+    ck = core.Check('C04', 'model_checking', tier, seed)
+    row, form = E.rows[i], E.forms[i]
+    if row['name'] != form['name']:
+        ck.engine_errors.append('decoder.h row %d is %s but executed table has %s' % (i, form['name'], row['name']))
+        return ck.export()
+    nm = row['name']
+    o, e = z3.BitVec('o', 16), z3.BitVec('e', 16)
+    R = E.R()
+    # what the form means (operand positions, sign / base / add-sub / align constants) is read from the frozen reference
+    # decoder.h when it has a row with the same name and opcode pattern (oracle R: the hardware-validated table); a row
+    # the reference does not know is judged by the current tree's own declaration and that is noted.
+    global _REF_FORMS
+    if _REF_FORMS is None:
+        _REF_FORMS = {}
+        for f_ in forms.rows(build.REF):
+            _REF_FORMS.setdefault((f_['name'], f_['expected']), f_)
+    rform = _REF_FORMS.get((form['name'], form['expected']))
+    if rform is None:
+        ck.notes.append('row %d %s 0x%04x has no counterpart in the reference table: judged by its own declaration' % (i, nm, form['expected']))
+    else:
+        form = rform
+    ops = [p for p in form['ops'] if p[0] in ('at', 'const')]
+    types = tuple(p[1] for p in ops)
+    cns = [p[1] for p in form['ops'] if p[0] == 'cn']
+    F = lambda k: forms.field(o, e, ops[k])
+    ex, st0, ctx = E.base()
+    regs = ctx['regs']
+    dm0 = E.pre_dmem()
+    ab = Abstract(E)
+    psn = [n for n in E.mod.funcs if 'Interpreter10ProductSumE' in n]
+    if len(psn) != 1:
+        ck.engine_errors.append('ProductSum symbol not found: %r' % psn)
+        return ck.export()
+    PS_ACC = z3.BitVec('PSUM_acc', 64)
+    PS_FL = {f: z3.BitVec('PSUM_' + f, 16) for f in FLAGS}
+    INPUTS = [('p', 0), ('p', 1), ('pe', 0), ('pe', 1), ('ps', 0), ('ps', 1), ('a', 0), ('a', 1), ('b', 0), ('b', 1), ('sv', None), ('sata', None)]
+    key = lambda f, k: f if k is None else '%s[%d]' % (f, k)
+
+    def psum(e_, st, a):
+        snap = {key(f, k): regs.get(st, f, k or 0) for f, k in INPUTS}
+        st.log.append(('PSUM', list(st.pc), list(a[1:7]), snap))
+        accv = bv(a[2], 32) if not is_c(a[2]) else z3.BitVecVal(a[2], 32)
+        for an, rn in REGN.items():
+            f, k = an[0], int(an[1])
+            regs.set(st, f, z3.If(accv == rn, PS_ACC, regs.get(st, f, k)), k)
+        for f in FLAGS:
+            regs.set(st, f, PS_FL[f])
+        return st, None
+
+    # ---- what the form demands
+    dest = [k for k, p in enumerate(ops) if p[1] in ('Ax', 'Bx', 'Ab')]
+    want_sum = None           # (base, sub0, align0, sub1, align1)
+    want_mul = {}             # unit -> (xs, ys, x value or None, y value or None)
+    rd = lambda k: ('read', k)
+    pre = lambda f: ('pre', f)
+    sv_from_read = False
+    acc_spec = None
+    if nm in PW_SUM:
+        if nm.startswith('sqr'):
+            want_sum = (1, 0, 0, 0, 1 if nm == 'sqr_mpysu_add3a' else 0)
+            if types == ('Ab', 'Ab'):
+                src = alu.acc_sel(R, F(0), forms.ENUMS['Ab'])
+                hi, lo = z3.Extract(31, 16, src), z3.Extract(15, 0, src)
+                want_mul = {0: (1, 1, hi, hi), 1: ((1, 1, lo, lo) if nm == 'sqr_sqr_add3' else (0, 1, lo, hi))}
+            else:
+                want_mul = {0: (1, 1, rd(0), rd(0)), 1: (1, 1, rd(1), rd(1))}
+        else:
+            b_ = [c for c in cns if c in BASES]
+            sp = [c for c in cns if c in ('Add', 'Sub', 'PP', 'PA')]
+            if len(b_) != 1 or len(sp) != 4:
+                ck.engine_errors.append('row %d %s: product-sum constants not recognised: %r' % (i, nm, cns))
+                return ck.export()
+            want_sum = (BASES[b_[0]], int(sp[0] == 'Sub'), int(sp[1] == 'PA'), int(sp[2] == 'Sub'), int(sp[3] == 'PA'))
+            sg = [SIGNED[c] for c in cns if c in SIGNED]
+            if nm in ('app', 'mov_sv_app'):
+                sv_from_read = nm == 'mov_sv_app'
+            elif len(sg) != 4:
+                ck.engine_errors.append('row %d %s: sign constants not recognised: %r' % (i, nm, cns))
+                return ck.export()
+            elif nm == 'mma' and 'ArpRn1' not in types and 'ArpRn2' not in types:
+                want_mul = {0: (sg[0], sg[1], pre('x[1]'), pre('y[0]')), 1: (sg[2], sg[3], pre('x[0]'), pre('y[1]'))}
+            elif nm == 'mma':
+                want_mul = {0: (sg[0], sg[1], rd(0), rd(1)), 1: (sg[2], sg[3], rd(2), rd(3))}
+            elif nm == 'mma_mx_xy':
+                want_mul = {0: (sg[0], sg[1], pre('x[1]'), rd(0)), 1: (sg[2], sg[3], pre('x[0]'), pre('y[1]'))}
+            elif nm == 'mma_xy_mx':
+                want_mul = {0: (sg[0], sg[1], pre('x[1]'), pre('y[0]')), 1: (sg[2], sg[3], pre('x[0]'), rd(0))}
+            elif nm == 'mma_my_my':
+                want_mul = {0: (sg[0], sg[1], rd(0), pre('y[0]')), 1: (sg[2], sg[3], rd(1), pre('y[1]'))}
+            elif nm == 'mma_mov':
+                want_mul = {0: (sg[0], sg[1], pre('x[1]'), pre('y[0]')), 1: (sg[2], sg[3], pre('x[0]'), pre('y[1]'))}
+    elif nm in PW_MUL:
+        if nm == 'mul' and types == ('Mul3', 'Rn', 'StepZIDS', 'Imm16', 'Ax'):
+            mop, fx = 0, (e, rd(0))
+        elif nm == 'mul_y0' and types == ('Mul3', 'Rn', 'StepZIDS', 'Ax'):
+            mop, fx = 0, (rd(0), pre('y[0]'))
+        elif nm == 'mul_y0' and types == ('Mul3', 'Register', 'Ax'):
+            mop, fx = 0, (None, pre('y[0]'))
+        elif nm == 'mul' and types == ('Mul3', 'R45', 'StepZIDS', 'R0123', 'StepZIDS', 'Ax'):
+            mop, fx = 0, (rd(1), rd(0))
+        elif nm == 'msu' and types == ('R45', 'StepZIDS', 'R0123', 'StepZIDS', 'Ax'):
+            mop, fx = None, (rd(1), rd(0))
+        elif nm == 'msu' and types == ('Rn', 'StepZIDS', 'Imm16', 'Ax'):
+            mop, fx = None, (e, rd(0))
+        elif nm == 'msusu':
+            mop, fx = None, (rd(0), pre('y[0]'))
+        elif nm == 'mac1':
+            mop, fx = None, (rd(0), rd(1))
+        else:
+            return ck.export()
+        acc_spec = (mop, fx)
+    else:
+        return ck.export()
+    if not dest:
+        ck.engine_errors.append('row %d %s: no destination accumulator operand' % (i, nm))
+        return ck.export()
+    dk = dest[-1]
+    dnames = forms.ENUMS[ops[dk][1]]
+    df = F(dk)
+    if is_c(df):
+        want_acc = z3.BitVecVal(REGN[dnames[df]], 32)
+    else:
+        want_acc = z3.BitVecVal(REGN[dnames[-1]], 32)
+        for k_ in range(len(dnames) - 2, -1, -1):
+            want_acc = z3.If(z3.ZeroExt(16 - df.size(), df) == k_, z3.BitVecVal(REGN[dnames[k_]], 32), want_acc)
+
+    A = E.inv() + [E.match_pred(row, o)] + ab.axioms
+    if want_sum is not None:
+        ex.intercepts[psn[0]] = psum
+    # address generation is C10's subject: the stepper and the offset adder return fresh values here
+    addrf = {}
+    for tag, pat in (('RNOLD', 'Interpreter11RnAndModifyE'), ('OFFA', 'Interpreter13OffsetAddressE')):
+        fn_ = [n for n in E.mod.funcs if pat in n]
+        if len(fn_) != 1:
+            ck.engine_errors.append('%s symbol not found' % pat)
+            return ck.export()
+
+        def fresh(e_, st, a, tag=tag):
+            k = len([1 for ev in st.log if ev[0] == tag])
+            ret = z3.BitVec('%s_%d' % (tag, k), 16)
+            st.log.append((tag, list(st.pc)))
+            return st, ret
+        addrf[fn_[0]] = fresh
+    ex.intercepts.update(addrf)
+    try:
+        with ab:
+            r = E.run_row(i, o, e, A)
+    except (Abort, UnwindBound) as x:
+        ck.inconclusive.append('row %d %s: %r' % (i, nm, x))
+        return ck.export()
+    finally:
+        ex.intercepts.pop(psn[0], None)
+        for n_ in addrf:
+            ex.intercepts.pop(n_, None)
+    ck.ninstr += r['ninstr']
+    ck.nstates += 1
+    if r['st'] is None:
+        ck.notes.append('row %d %s never returns normally' % (i, nm))
+        return ck.export()
+    st = r['st']
+    log = st.log
+    reads = [ev for ev in log if ev[0] == 'R']
+    writes_before = lambda ev: [w for w in log[:log.index(ev)] if w[0] == 'W']
+
+    def value(spec_):
+        if spec_ is None:
+            return None
+        if isinstance(spec_, tuple) and spec_[0] == 'read':
+            if spec_[1] >= len(reads):
+                return False
+            return z3.Select(dm0, reads[spec_[1]][2])
+        if isinstance(spec_, tuple) and spec_[0] == 'pre':
+            return R[spec_[1]]
+        return spec_
+    normal = z3.Not(kit.exit_cond(type('X', (), {'exits': r['exits']})()))
+    g = []
+    post = E.post_regs(st)
+    muls = [ev for ev in log if ev[0] == 'MUL']
+    p2bs = [ev for ev in log if ev[0] == 'P2B']
+    sums = [ev for ev in log if ev[0] == 'PSUM']
+    what = []
+    if want_sum is not None:
+        what.append('ProductSum(base %d, %sp0%s, %sp1%s) -> named accumulator, on the pre-state products' % (want_sum[0], '-' if want_sum[1] else '+', '>>16' if want_sum[2] else '', '-' if want_sum[3] else '+', '>>16' if want_sum[4] else ''))
+        g.append(z3.BoolVal(len(sums) == 1))
+        for ev in sums:
+            a = ev[2]
+            pc_ = kit.path_cond(ev[1])
+            g.append(z3.Implies(normal, pc_))
+            g.append((bv(a[0], 32) if not is_c(a[0]) else z3.BitVecVal(a[0], 32)) == want_sum[0])
+            g.append((bv(a[1], 32) if not is_c(a[1]) else z3.BitVecVal(a[1], 32)) == want_acc)
+            g += [_truth(a[2 + q], want_sum[1 + q]) for q in range(4)]
+            for k_, v_ in ev[3].items():
+                if k_ == 'sv' and sv_from_read:
+                    g.append(z3.BoolVal(len(reads) == 1) if len(reads) != 1 else v_ == z3.Select(dm0, reads[0][2]))
+                elif not v_.eq(R[k_]):
+                    g.append(v_ == R[k_])
+        # nothing after the sum touches the accumulator it wrote or the flags
+        for an, rn in REGN.items():
+            g.append(z3.Implies(want_acc == rn, post[alu.ACC[an]] == PS_ACC))
+        g += [post[f] == PS_FL[f] for f in FLAGS]
+        g.append(z3.BoolVal(not p2bs))
+    else:
+        mop, fx = acc_spec
+        unit = 1 if nm == 'mac1' else 0
+        names = forms.ENUMS['Mul3']
+
+        def one(acc):
+            if mop is None:
+                res, c, ov = alu.addsub(R[acc], ab.PB[unit], nm != 'mac1')
+                return alu.write_acc_sat(alu.with_cv(R, c, ov), acc, res), None
+            posts, sgs = [], []
+            for k_, opn in enumerate(names):
+                R1 = R
+                if opn not in ('Mpy', 'Mpysu'):
+                    prod = ab.PB[0] >> 16 if opn in ('Maa', 'Maasu') else ab.PB[0]
+                    res, c, ov = alu.addsub(R[acc], prod, False)
+                    R1 = alu.write_acc_sat(alu.with_cv(R, c, ov), acc, res)
+                posts.append((F(mop) == k_, R1))
+            return c03.ite_posts(posts, R), None
+        spec = alu.acc_store(lambda n_: one(alu.ACC[n_])[0], df, dnames, R)
+        for f in FLAGS + ('a[0]', 'a[1]', 'b[0]', 'b[1]'):
+            if not post[f].eq(spec[f]):
+                g.append(post[f] == spec[f])
+        for ev in p2bs:
+            g.append(z3.BoolVal(is_c(ev[2]) and ev[2] == unit))
+            g += [z3.Implies(kit.path_cond(ev[1]), ev[3][k_] == R[k_]) for k_ in ev[3] if not ev[3][k_].eq(R[k_])]
+        if mop is None:
+            sg = {'msu': (1, 1), 'msusu': (0, 1), 'mac1': (1, 1)}[nm]
+            want_mul = {unit: (sg[0], sg[1], fx[0], fx[1])}
+            what.append('acc := sat(acc %s p%d) with the pre-state product, then multiplier %d launched %s x %s' % ('+' if nm == 'mac1' else '-', unit, unit, 'sx' if sg[0] else 'ux', 'sy' if sg[1] else 'uy'))
+        else:
+            sgn = {'Mpy': (1, 1), 'Mac': (1, 1), 'Maa': (1, 1), 'Mpysu': (0, 1), 'Macsu': (0, 1), 'Maasu': (0, 1), 'Macus': (1, 0), 'Macuu': (0, 0)}
+            what.append('Mul3 operation: accumulate the pre-state p0 (mac/maa variants) into the named accumulator, then launch multiplier 0 with the sign selection of the operation')
+            # sign selection depends on the (symbolic) operation: one launch, signs as the operation says
+            g.append(z3.BoolVal(len(muls) >= 1))
+            for k_, opn in enumerate(names):
+                hits = [kit.path_cond(ev[1]) for ev in muls if (ev[2], ev[3], ev[4]) == (0,) + sgn[opn]]
+                g.append(z3.Implies(z3.And(normal, F(mop) == k_), z3.Or(*hits) if hits else z3.BoolVal(False)))
+            g.append(z3.AtMost(*[kit.path_cond(ev[1]) for ev in muls], 1))
+            for ev in muls:
+                for got, wv in ((ev[5], value(fx[0])), (ev[6], value(fx[1]))):
+                    if wv is False:
+                        g.append(z3.BoolVal(False))
+                    elif wv is not None:
+                        g.append(z3.Implies(kit.path_cond(ev[1]), got == wv))
+            want_mul = {}
+    # launches demanded by the form: each multiplier exactly once, with the form's sign selection and factors
+    if want_sum is not None or acc_spec[0] is None:
+        g.append(z3.BoolVal(len(muls) == len(want_mul)))
+        for u, (xs, ys, xv, yv) in want_mul.items():
+            evs = [ev for ev in muls if is_c(ev[2]) and ev[2] == u]
+            if len(evs) != 1:
+                g.append(z3.BoolVal(False))
+                continue
+            ev = evs[0]
+            g.append(z3.BoolVal((ev[3], ev[4]) == (xs, ys)))
+            g.append(z3.Implies(normal, kit.path_cond(ev[1])))
+            for got, wv in ((ev[5], value(xv)), (ev[6], value(yv))):
+                if wv is False:
+                    g.append(z3.BoolVal(False))
+                elif wv is not None:
+                    g.append(got == wv)
+            if want_sum is not None:
+                g.append(z3.BoolVal(log.index(ev) > log.index(sums[0])) if sums else z3.BoolVal(False))
+        what.append('launches: ' + ', '.join('unit %d %s x %s' % (u, 'sx' if w[0] else 'ux', 'sy' if w[1] else 'uy') for u, w in sorted(want_mul.items())) if want_mul else 'no multiplier launched')
+    vars_ = c03.vars_of(R, {'o': o, 'e': e, 'PB40_0': ab.PB[0], 'PB40_1': ab.PB[1]})
+    vars_.update(interp.read_vars(E, st))
+    ck.prove('ProductWiring[%d %s%s]' % (i, nm, types), A + [normal], z3.And(*g), vars=vars_,
+             sample=('row %d %s%s: ' % (i, nm, types) + '; '.join(what)) if i % 7 == 0 else None)
+    return ck.export()
+
+
 def _dispatch(fn, args):
     return fn(*args)
 
@@ -369,17 +664,19 @@ def run(tier, seed):
     ck = core.Check('C04', 'model_checking', tier, seed)
     E = env()
     ck.funcs.update(['Interpreter::DoMultiplication', 'ProductToBus40', 'ProductSum', 'ShiftBus40', 'Exp', 'MulGeneric', 'mul_y0_r6', 'mul_y0(Mul2,MemImm8,Ax)', 'mpyi', 'mac_x1to0', 'shfc', 'shfi',
-                     'movs_r6_to', 'movs(MemImm8,Ab)', 'moda4/moda3 (shr shr4 shl shl4)', 'exp(Bx)', 'exp(Bx,Ax)', 'exp_r6 (2)', 'mov_p1_to', 'clrp0/clrp1/clrp'])
+                     'movs_r6_to', 'movs(MemImm8,Ab)', 'moda4/moda3 (shr shr4 shl shl4)', 'exp(Bx)', 'exp(Bx,Ax)', 'exp_r6 (2)', 'mov_p1_to', 'clrp0/clrp1/clrp', 'app (14 rows)', 'mov_sv_app (10)', 'mma (55)', 'mma_mx_xy', 'mma_xy_mx', 'mma_my_my (12)', 'mma_mov (8)', 'sqr_sqr_add3 (2)', 'sqr_mpysu_add3a', 'mul (2)', 'mul_y0 (3)', 'msu (2)', 'msusu', 'mac1'])
     ck.assumptions += ['pre-state satisfies Inv', 'shifter model applies to shift amounts -39..39; larger amounts (boundary flags not pinned by the statement) are covered by the reference comparison C01',
                        'ProductSum: result, z/m/e/n flags and saturation are checked against the model; its combined carry/overflow flags are covered by C01 only',
                        'compositional cut: inside ProductSum and the instruction rows, ProductToBus40 is a fresh sign-extended 40-bit value per unit (proved to be read on the pre-state product registers) and DoMultiplication writes fresh product words (proved to be launched with the unit/sign selection/factors the form demands); both functions are proved against the exact-product model as kernels, half-word mode by exhaustive case split',
-                       'rows whose operands come through Register / [Rn] / ar-arp addressing (mul, msu, mma*, sqr*, norm, movs(Rn), movsi, exp(Rn), exp(Register)) are covered by C01 and C10 rather than this model']
+                       'ProductWiring[row] (app, mov_sv_app, every mma* form, sqr*, mul/mul_y0/msu/msusu/mac1 with memory or register operands): event-level - ProductSum is called once, on the pre-state product registers (mov_sv_app: after sv was loaded from the word read), with the base / add-sub / align configuration and destination the form declares; each multiplier is then launched exactly once with the declared sign selection and with the factors the form routes to it (pre-state x/y, swapped x, the n-th memory word read, the second word, halves of the source accumulator); nothing after the sum touches its accumulator or the flags. What a form declares is read from the frozen reference decoder.h (same name and opcode pattern). Address generation (RnAndModify / OffsetAddress) returns fresh values there (C10 decides it); the value of a Register source operand in mul_y0(Register) is left to C01',
+                       'norm, movs(Rn), movs(Register), movsi, exp(Rn), exp(Register), cbs, the vtr forms: covered by C01 and C10 rather than this model']
     ck.bounds += ['no bound on values; Exp loop unwinding 60 (39 iterations needed, bound checked)', 'quick tier: ProductSum kernel on destinations a0 and b1 (thorough: all four)']
     ck.stubs += E.tabulated
     fam = ('mul_y0_r6', 'mul_y0', 'mpyi', 'mac_x1to0', 'shfc', 'shfi', 'movs_r6_to', 'movs', 'moda4', 'moda3', 'exp', 'exp_r6', 'mov_p1_to', 'clrp0', 'clrp1', 'clrp')
     rows = [r['i'] for r in E.rows if r['name'] in fam]
     kj = [(job_mul, (u, tier, seed)) for u in (0, 1)] + [(job_prodsum, (b_, tier, seed)) for b_ in range(4)] + [(job_shift, (an, tier, seed)) for an in REGN]
-    res = core.pmap(_dispatch, kj) + core.pmap(job_row, [(i, tier, seed) for i in rows]) + core.pmap(job_val, [(i, seed) for i in rows[::3]])
+    pw = [r['i'] for r in E.rows if r['name'] in PW_SUM + PW_MUL]
+    res = core.pmap(_dispatch, kj) + core.pmap(job_row, [(i, tier, seed) for i in rows]) + core.pmap(job_pw, [(i, tier, seed) for i in pw]) + core.pmap(job_val, [(i, seed) for i in rows[::3]])
     for r in res:
         if '__error__' in r:
             ck.engine_errors.append(r['__error__'])
